@@ -449,8 +449,13 @@ class Scenario:
 
 
 class Names:
-    def __init__(self):
-        self.tab: dict = {}
+    """Numbering of the strings of one scenario. Module names are ordered in the model (Bank.get sorts its search paths),
+    so a numbering made from a `universe` is order preserving: s < t as Python strings iff n(s) < n(t). Because '.'
+    sorts before every identifier character, the component-wise order of the model's (pkg, sub) pairs is then Python's
+    order of the dotted names. Strings met later (not part of the universe) get fresh numbers at the end."""
+
+    def __init__(self, universe=None):
+        self.tab: dict = {s: i for i, s in enumerate(sorted(set(universe or ())))}
 
     def n(self, s: str) -> int:
         return self.tab.setdefault(s, len(self.tab))
@@ -573,8 +578,9 @@ class ScenGen:
         r.shuffle(base_paths)
         mid_paths = [pkgs[-1]] if r.random() < 0.2 else []
         sc = Scenario(base_paths, mid_paths, packages, [] if lazy else modules, [], kind)
-        if kind == 'clean-lazy' and r.random() < 0.4:
-            sc.imports = r.sample(modules, 1)  # partially pre-imported
+        if kind == 'clean-lazy' and r.random() < 0.5:
+            # partially pre-imported (1..3 modules, every order): explicit imports interleaved with lazy discovery
+            sc.imports = r.sample(modules, min(len(modules), r.choice([1, 2, 3])))
         # queries: every alias and every qualified name against Base and Mid, plus unknown references
         qs = []
         for mod, c, abstract, _ in sc.classes():
@@ -594,7 +600,28 @@ class ScenGen:
             # the colliding alias first (before anything else triggers imports), then the rest
             qs = [('Base', 'dup')] + [q for q in qs if q != ('Base', 'dup')]
         sc.queries = qs[:7] + [('Base', 'nosuch'), ('Base', 'pk0.foo:Nosuch'), ('Mid', 'nomod:Impl')]
+        if kind != 'preload':
+            sc.queries += self.near_misses(sc)
         return sc
+
+    def near_misses(self, sc: Scenario):
+        """Unknown references that resemble something that exists: class names used as aliases, aliases in another
+        case / truncated / extended, names of modules that carry no such alias, qualified names with the right module and
+        a wrong class or the package in place of the module. None of them is carried by any class of the scenario."""
+        r = self.rng
+        classes = [(mod, c) for mod, c, _, _ in sc.classes() if mod != IFC]
+        aliases = {c['alias'] for _, c in classes if c.get('alias')}
+        quals = {f"{mod}:{c['name']}" for mod, c in classes}
+        cand = []
+        for mod, c in classes:
+            cand += [c['name'], c['name'].lower(), f"{mod}:{c['name'].lower()}", f"{mod.split('.')[0]}:{c['name']}",
+                     f"{mod}:{c['name']}x"]
+            if '.' in mod:
+                cand.append(mod.split('.')[1])  # alias spelled like an importable module
+            if c.get('alias'):
+                cand += [c['alias'].upper(), c['alias'][:-1], c['alias'] + 'x']
+        cand = [x for x in dedupe(cand) if x and x not in aliases and x not in quals]
+        return [(r.choice(['Base', 'Base', 'Mid']), x) for x in r.sample(cand, min(3, len(cand)))]
 
 
 def spawn_workers(jobs: list, seeds: list, timeout: int = 800):
@@ -636,14 +663,18 @@ class C20(fw.Check):
             'Sections: [RUNNER]/[REGISTRY] groups with default / provider / params resolved through setup.Runner/Registry. '
             'Providers: generated packages (1..3 packages, 1..3 modules each, 1..3 classes per module deriving from the '
             'abstract interface, an abstract intermediate or an earlier class; aliases, qualified names, __all__ lists '
-            'with ghosts) of kinds clean-explicit, collision-explicit, abstract-alias, clean-lazy, collision-lazy, preload; '
-            'every permutation (quick: <= 6 sampled) of the explicit imports x PYTHONHASHSEEDs, each in a freshly forked '
-            'process of an interpreter that has only forml imported; every alias / qualified name / unknown reference '
-            'resolved through Base[...] and Mid[...]. A provider case is distinct by (scenario, import order, seed).')
+            'with ghosts) of kinds clean-explicit, collision-explicit, abstract-alias, clean-lazy (half with 1..3 modules '
+            'pre-imported explicitly), collision-lazy, preload; every permutation (quick: <= 6 sampled) of the explicit '
+            'imports x PYTHONHASHSEEDs, each in a freshly forked process of an interpreter that has only forml imported; '
+            'every alias / qualified name, three fixed unknown references and up to three near-miss unknown references '
+            '(class name as alias, alias in another case / truncated / extended, module name without that alias, right '
+            'module wrong class, package for module) resolved in sequence through Base[...] and Mid[...]. A provider case '
+            'is distinct by (scenario, import order, seed).')
     TRUSTED = [
         'tomli (TOML reader), the minimal TOML writer of the harness, MappingProxyType wrappers',
-        'CPython import machinery (__import__/fromlist/__all__, sys.modules) and set iteration order: the model takes '
-        'the observed iteration order of Bank.paths as an explicit parameter',
+        'CPython import machinery (__import__/fromlist/__all__, sys.modules), sorted() on Bank.Path tuples, and set '
+        'iteration order: the model takes the observed iteration order of Bank.paths as an explicit parameter (and '
+        'C20_lookup_order_free proves that it does not matter once Bank.get sorts)',
         'os.fork children of one interpreter per hash seed stand for fresh processes (forml imported, nothing else)',
     ]
     ASSUMPTIONS = ['list elements are scalars (TOML arrays of tables are not generated)',
@@ -876,15 +907,21 @@ class C20(fw.Check):
 
     @staticmethod
     def _model_line(sc: Scenario, ops, results):
-        names = Names()
-        world = scenario_world(sc, names)
-        mops = []
-        for op, r in zip(ops, results):
-            if op[0] == 'import':
-                mops.append(['import', names.mod(op[1])])
-            else:
-                mops.append(['get', [names.mod(op[1]), names.n(op[2])], ref_sexp(op[3], names), [names.mod(v) for v in r[-1]]])
-        return sexp.dumps(['bank', world, mops]), names
+        def build(names):
+            world = scenario_world(sc, names)
+            mops = []
+            for op, r in zip(ops, results):
+                if op[0] == 'import':
+                    mops.append(['import', names.mod(op[1])])
+                else:
+                    mops.append(['get', [names.mod(op[1]), names.n(op[2])], ref_sexp(op[3], names),
+                                 [names.mod(v) for v in r[-1]]])
+            return ['bank', world, mops]
+
+        collect = Names()
+        build(collect)  # first pass: the universe of strings
+        names = Names(collect.tab)  # second pass: order-preserving numbers
+        return sexp.dumps(build(names)), names
 
     @staticmethod
     def _impl_canon(ops, results, names: Names):
@@ -915,11 +952,14 @@ class C20(fw.Check):
         """Property text evaluated on the real outcomes of one scenario across all import orders and hash seeds.
         runs = [(order, seed, ops, results)]"""
         classes = {(mod, c['name']): (c, abstract) for mod, c, abstract, _ in sc.classes()}
+        ancestors = {(mod, c['name']): anc for mod, c, _, anc in sc.classes()}
+        search = {'Base': set(sc.base_paths) | set(sc.mid_paths), 'Mid': set(sc.mid_paths)}  # path= seen by each bank
         by_alias: dict = {}
         for (mod, name), (c, abstract) in classes.items():
             if c.get('alias'):
                 by_alias.setdefault(c['alias'], []).append((mod, name))
         colliding = {a for a, cs in by_alias.items() if len(cs) > 1}
+        defective = bool(colliding) or any(abstract and c.get('alias') for c, abstract in classes.values())
         witness = {'kind': 'bank', 'scenario': sc.to_json()}
         per_query: dict = {}
         for order, seed, ops, results in runs:
@@ -952,12 +992,29 @@ class C20(fw.Check):
                                      dict(witness, order=order, seeds=[seed]), 'wrong-provider-returned')
                         continue
                 known = (ref in by_alias) or (':' in ref and tuple(ref.split(':', 1)) in classes)
+                # a reference carried by exactly one concrete class below the interface resolves (to that class, checked
+                # above) once its module was imported, or lazily when it is discoverable: a qualified name names its
+                # module, an alias is looked for in <search path>.<alias>
+                carriers = by_alias.get(ref, []) if ':' not in ref else [tuple(ref.split(':', 1))]
+                carriers = [k for k in carriers if k in classes and not classes[k][1]]
+                if (len(carriers) == 1 and not defective and not rejected and sc.kind != 'preload' and r[0] != 'ok'
+                        and (IFC, iface) in ancestors[carriers[0]]):
+                    cmod = carriers[0][0]
+                    pkg, _, sub = cmod.partition('.')
+                    if cmod in order or ':' in ref or (sub == ref and pkg in search[iface]):
+                        self.violate(f'{iface}[{ref!r}] raised {r[1]} although {cmod}:{carriers[0][1]} carries the reference '
+                                     f'and is {"imported" if cmod in order else "discoverable"}',
+                                     dict(witness, order=order, seeds=[seed]), 'registered-provider-not-found')
+                        continue
                 if not known and r[0] == 'ok':
                     self.violate(f'unknown reference {iface}[{ref!r}] resolved to {r[1]}:{r[2]}',
                                  dict(witness, order=order, seeds=[seed]), 'unknown-reference-resolved')
                     continue
-                if not known and r[1] != 'MissingError' and not rejected:
-                    sig = LAZY_SIG if (sc.kind == 'collision-lazy' and r[1] == 'UnexpectedError') else 'unknown-reference-not-missing'
+                # a lookup that has to import a module whose class registration is rejected (colliding reference, alias
+                # on an abstract class) raises that rejection: "rejected at registration" takes precedence there
+                excused = defective and r[0] == 'err' and r[1] == 'UnexpectedError'
+                if not known and r[1] != 'MissingError' and not rejected and not excused:
+                    sig = 'unknown-reference-not-missing'
                     self.violate(f'unknown reference {iface}[{ref!r}] raised {r[1]} instead of MissingError',
                                  dict(witness, query=[iface, ref], seeds=[seed]), sig)
                 outcome = (r[0], r[1], r[2]) if r[0] == 'ok' else (r[0], r[1])
@@ -1018,10 +1075,12 @@ class C20(fw.Check):
     def search(self, reason):
         # widen: conf stacks oracle-only around the diverging shapes, more provider scenarios of every kind
         before = len(self.violations)
+        # a part of the check whose oracle already produced a failing input on the real code needs no wider search
+        have = {v.witness.get('kind') for v in self.violations if isinstance(v.witness, dict)}
         gen = ConfGen(self.rng)
         tmp = tempfile.mkdtemp(prefix='verif-c20-search-')
         try:
-            for _ in range(self.n(3000, 20000)):
+            for _ in range(0 if ('conf' in have or 'section' in have) else self.n(3000, 20000)):
                 sources, _ = gen.stack()
                 via = self.rng.choice(['update', 'update-kw', 'read', 'mixed'])
                 impl, spec, dupes, _, eff = self._conf_eval(sources, via, tmp)
@@ -1035,7 +1094,7 @@ class C20(fw.Check):
                     break
         finally:
             shutil.rmtree(tmp, ignore_errors=True)
-        if any(d.what.startswith('provider') for d in self.divergences) or not self.divergences:
+        if (any(d.what.startswith('provider') for d in self.divergences) or not self.divergences) and 'bank' not in have:
             self._bank(self.n(40, 120), self.SEEDS_THOROUGH)
         self.notes.append(f'failing-input search ({reason}): widened config stacks and provider scenarios, '
                           f'{len(self.violations) - before} violating input(s) found')
